@@ -35,6 +35,10 @@ type HistOp struct {
 
 type HistBody struct {
 	Ops []HistOp `json:"ops"`
+	// Crash: the run ends with one more dolt_commit that the server does not survive (crash images
+	// at the structural file-system events of the statement and after it, crash.go).
+	Crash bool      `json:"crash,omitempty"`
+	Only  *SQLCrash `json:"only,omitempty"`
 }
 
 func (HIST) Generate(seed uint64, tier string) *core.Scenario {
@@ -81,6 +85,7 @@ func (HIST) Generate(seed uint64, tier string) *core.Scenario {
 			b.Ops = append(b.Ops, rd)
 		}
 	}
+	b.Crash = r.Chance(1, 3)
 	raw, _ := json.Marshal(b)
 	return &core.Scenario{Property: "C33", Harness: "C33", Seed: seed, Tier: tier, Body: raw}
 }
@@ -381,6 +386,106 @@ func (HIST) Execute(t *testing.T, sc *core.Scenario) *core.Result {
 		}
 		if len(res.Violations) >= 3 {
 			break
+		}
+	}
+	if b.Crash && !res.Violated() && res.Panic == "" {
+		// one more commit on main, and the server dies in it
+		s, st := ss[0], &wk[0]
+		ready := true
+		if !st.exists {
+			if _, err := s.Exec(ctx, createKV); err == nil {
+				*st = hstate{exists: true, name: "kv", rows: map[int][3]string{}}
+			} else {
+				ready = false
+			}
+		}
+		if ready {
+			if _, err := s.Exec(ctx, fmt.Sprintf("INSERT INTO %s (pk, a, c) VALUES (900, 9, 'crash')", st.name)); err == nil {
+				st.rows[900] = [3]string{"9", "crash", "NULL"}
+			} else {
+				ready = false
+			}
+		}
+		var before [][]string
+		if ready {
+			var err error
+			if before, err = s.Exec(ctx, "SELECT hashof('HEAD')"); err != nil || len(before) != 1 {
+				ready = false
+			}
+		}
+		if ready {
+			start := sos.LogLen()
+			rows, cerr := s.Exec(ctx, "CALL dolt_commit('-Am', 'the commit the server dies in')")
+			end := sos.LogLen()
+			acked := cerr == nil && len(rows) == 1
+			oldHead, newHead := before[0][0], ""
+			if acked {
+				newHead = rows[0][0]
+			}
+			final := st.clone()
+			log := append([]simos.Event(nil), sos.Log()...)
+			w.Close()
+			simos.Uninstall()
+			cases := sqlCrashCases(log, start, end, "test", 8, int(sc.Seed%5), b.Only)
+			forEachCrashImage(ctx, res, log, sc.Seed, cases, "a dolt_commit", func(w2 *World, c sqlCrashCase, desc string, pin func(*core.Violation)) {
+				s2, err := w2.NewSession(ctx, true)
+				if err != nil {
+					pin(res.Violate("server-unusable-after-crash", "what=session", 0, "%s: %s", desc, firstLine(err)))
+					return
+				}
+				hr, err := s2.Exec(ctx, "SELECT hashof('HEAD')")
+				if err != nil || len(hr) != 1 {
+					pin(res.Violate("server-unusable-after-crash", "what=head", 0, "%s: %v", desc, err))
+					return
+				}
+				head := hr[0][0]
+				st2, _ := s2.Exec(ctx, "SELECT COUNT(*) FROM dolt_status")
+				dirty := len(st2) == 1 && st2[0][0] != "0"
+				switch {
+				case acked && head == newHead:
+					res.Probe("recovered_with_the_commit")
+					// the commit and its working-set update land together
+					if dirty {
+						pin(res.Violate("commit-and-working-set-torn-by-crash", "head=new;working-set=old", 0, "%s: HEAD is the new commit %s but the working set still differs from it (dolt_status is not empty)", desc, head))
+					}
+					got, err := s2.Exec(ctx, "SELECT * FROM "+final.name)
+					if err != nil || rowsKey(got) != final.render(final.hasD) {
+						pin(res.Violate("historical-read-differs", "form=head-after-crash", 0, "%s: table %s at the recovered HEAD holds\n%s\nthe commit was made of\n%s (%v)", desc, final.name, indent(rowsKey(got)), indent(final.render(final.hasD)), err))
+					}
+				case head == oldHead && !(c.End && acked):
+					res.Probe("recovered_without_the_commit")
+					if !dirty {
+						pin(res.Violate("commit-and-working-set-torn-by-crash", "head=old;working-set=new", 0, "%s: HEAD is still %s but the working set is clean: the acknowledged INSERT before the commit is gone or the working set was moved without the head", desc, head))
+					}
+				case head == oldHead:
+					pin(res.Violate("acknowledged-commit-lost-in-crash", "variant="+c.Variant.Name, 0, "%s: dolt_commit had returned %s, the recovered HEAD is the old %s", desc, newHead, oldHead))
+				default:
+					pin(res.Violate("recovered-head-is-neither-before-nor-after-the-commit", "variant="+c.Variant.Name, 0, "%s: HEAD is %s (before: %s, the commit: %q)", desc, head, oldHead, newHead))
+				}
+				// every commit recorded during the run is still there, with its data
+				stride := 1 + len(commits)/6
+				for i := int(sc.Seed % uint64(stride)); i < len(commits); i += stride {
+					cm := commits[i]
+					if !cm.st.exists {
+						continue
+					}
+					q := fmt.Sprintf("SELECT * FROM %s AS OF '%s'", cm.st.name, cm.hash)
+					got, err := s2.Exec(ctx, q)
+					res.Evaluations++
+					if err != nil {
+						pin(res.Violate("historical-read-failed", "form=as-of;after=crash", 0, "%s: %s: %s", desc, q, firstLine(err)))
+					} else if rowsKey(got) != cm.st.render(cm.st.hasD) {
+						pin(res.Violate("historical-read-differs", "form=as-of;after=crash", 0, "%s: %s returned\n%s\nbut the commit held\n%s", desc, q, indent(rowsKey(got)), indent(cm.st.render(cm.st.hasD))))
+					} else {
+						res.Probe("historical_read_ok:after-crash")
+					}
+				}
+			}, func(c SQLCrash) []byte {
+				b2 := b
+				b2.Only = &c
+				raw, _ := json.Marshal(b2)
+				return raw
+			})
 		}
 	}
 	res.Ops = len(b.Ops)
